@@ -30,7 +30,11 @@ RULE = ("syn: random sizes n_o in 1..5, n_t in 1..3, n_b in 1..5, random positio
         "cancellation on the diagonal), dyadic and generic floats, factors incl. non-dyadic; real: all direction algorithms "
         "(ico, cube3D, randomS) x rotation algorithms (zero, cube4D, randomQ), n_o in 1..8,12,20(+), n_b in 1,4..9(+17,20), "
         "2-4 radii (lists, linspace, range, random), both position modes, f in {0.5,1,2,3}+random; fold: every rotation grid "
-        "used. A case is distinct by its full input; non-trivial when at least one matrix has a stored entry from each of "
+        "used; hist (a real case plus a history): on ONE FullGrid object (inside a GridWriter, freshly built sub-grids) 6-10 "
+        "random calls with repetition over all public matrix/volume/index getters, get_full_prefactors, the PositionGrid "
+        "getters and GridWriter.save_* + load, the returned objects scaled/overwritten in place between calls; every answer "
+        "must equal the first answer of a fresh object (failure is shrunk to a two-call history); alias: every getter alone: "
+        "call, overwrite the returned object, call again. A case is distinct by its full input; non-trivial when at least one matrix has a stored entry from each of "
         "the two families (position and rotation) or, for n_b = 1 / n_P = 1, from the one family that exists")
 CHUNK = 40
 SELS = ("adjacency", "border_len", "center_distances")
@@ -48,6 +52,8 @@ def fac(sel, f):
 _installed = False
 _pub_rot = {}
 _pub_pos = {}
+_orig_create = {}
+_memo_create = {}
 
 
 def _install():
@@ -58,6 +64,7 @@ def _install():
 
     def memo(cls):
         orig = cls.create.__func__
+        _orig_create[cls] = orig
         cache = {}
 
         def create(c, alg_name, N, **kw):
@@ -68,7 +75,21 @@ def _install():
         cls.create = classmethod(create)
     memo(rotobj.SphereGrid3DFactory)
     memo(rotobj.SphereGrid4DFactory)
+    for cls in _orig_create:
+        _memo_create[cls] = cls.__dict__["create"]
     _installed = True
+
+
+class _fresh_factories:
+    """inside this block every FullGrid gets its own, newly built sub-grid objects (no sharing through the memoised factories)"""
+
+    def __enter__(self):
+        for cls, orig in _orig_create.items():
+            cls.create = classmethod(orig)
+
+    def __exit__(self, *a):
+        for cls, m in _memo_create.items():
+            cls.create = m
 
 
 def canon(M):
@@ -266,15 +287,24 @@ def cases(ctx):
     syn = syn_cases(ctx)
     real = real_cases(ctx)
     seen_b = []
-    budget_real = 55 if ctx.quick else 10 ** 9
+    budget_real = 43 if ctx.quick else 10 ** 9
+    hist = list(hist_cases(ctx, 12 if ctx.quick else 130))
+    real = hist[:len(hist) // 2] + real + hist[len(hist) // 2:] if not ctx.quick else hist + real
+    budget_real += len(hist) if ctx.quick else 0
     # interleave: synthetic first (cheap), then real grids, a fold case the first time a rotation grid shows up
     for _ in range(60 if ctx.quick else 400):
         c = next(syn, None)
         if c is not None:
             yield c
+    alias = [{"kind": "alias", "b": "cube4D_4", "o": "ico_6", "t": "[0.2,0.3]", "f": 2, "cart": ctx.rng.random() < 0.5}]
+    if not ctx.quick:
+        alias += [{"kind": "alias", "b": "randomQ_5", "o": "cube3D_8", "t": "[0.1,0.2,0.4]", "f": 0.5, "cart": True},
+                  {"kind": "alias", "b": "1", "o": "randomS_9", "t": "linspace(0.2,0.5,4)", "f": 3, "cart": False}]
     for k, c in enumerate(real):
         if k >= budget_real:
             break
+        if k == 12:                     # after the first histories
+            yield from alias
         if b_size(c["b"]) >= 4 and c["b"] not in seen_b:
             seen_b.append(c["b"])
             yield {"kind": "fold", "b": c["b"]}
@@ -285,6 +315,214 @@ def cases(ctx):
                 seen_b.append(b)
                 yield {"kind": "fold", "b": b}
     yield from syn
+
+
+# ------------------------------------------------------------------------------------------------------------------
+# histories: state left on one FullGrid object by earlier calls, aliasing of returned objects
+# ------------------------------------------------------------------------------------------------------------------
+def _load_npz(path):
+    from molgri.io import GridReader
+    return GridReader().load_borders_array(path)
+
+
+HIST_OPS = {
+    # name: (callable(gw) -> returned object, name of the op whose fresh answer is the reference)
+    "adjacency": (lambda gw: gw.fg.get_full_adjacency(), None),
+    "borders": (lambda gw: gw.fg.get_full_borders(), None),
+    "distances": (lambda gw: gw.fg.get_full_distances(), None),
+    "volumes": (lambda gw: gw.fg.get_total_volumes(), None),
+    "prefactors": (lambda gw: gw.fg.get_full_prefactors(), None),
+    "grid": (lambda gw: gw.fg.get_full_grid_as_array(), None),
+    "position_index": (lambda gw: gw.fg.get_position_index(), None),
+    "quaternion_index": (lambda gw: gw.fg.get_quaternion_index(), None),
+    "between_radii": (lambda gw: gw.fg.get_between_radii(), None),
+    "radii": (lambda gw: gw.fg.get_radii(), None),
+    "position_array": (lambda gw: gw.fg.get_position_grid().get_position_grid_as_array(), None),
+    "position_volumes": (lambda gw: gw.fg.get_position_grid().get_all_position_volumes(), None),
+    "pos_adjacency": (lambda gw: gw.fg.get_position_grid().get_adjacency_of_position_grid(), None),
+    "pos_borders": (lambda gw: gw.fg.get_position_grid().get_borders_of_position_grid(), None),
+    "pos_distances": (lambda gw: gw.fg.get_position_grid().get_distances_of_position_grid(), None),
+    "rot_adjacency": (lambda gw: gw.fg.get_adjacency_of_orientation_grid(), None),
+    "rot_volumes": (lambda gw: gw.fg.b_rotations.get_spherical_voronoi().get_voronoi_volumes(), None),
+    "adjacency_only_position": (lambda gw: gw.fg.get_full_adjacency(only_position=True), None),
+    "distances_only_orientation": (lambda gw: gw.fg.get_full_distances(only_orientation=True), None),
+    "o_grid_array": (lambda gw: gw.fg.get_o_grid().get_grid_as_array(), None),
+    "b_grid_array": (lambda gw: gw.fg.b_rotations.get_grid_as_array(), None),
+    # saving through molgri.io.GridWriter and loading the file again
+    "save_borders": (lambda gw: (gw.save_borders_array(gw._c02_dir + "/b"), _load_npz(gw._c02_dir + "/b.npz"))[1], "borders"),
+    "save_distances": (lambda gw: (gw.save_distances_array(gw._c02_dir + "/d"), _load_npz(gw._c02_dir + "/d.npz"))[1], "distances"),
+    "save_adjacency": (lambda gw: (gw.save_adjacency_array(gw._c02_dir + "/a"), _load_npz(gw._c02_dir + "/a.npz"))[1], "adjacency"),
+    "save_volumes": (lambda gw: (gw.save_volumes(gw._c02_dir + "/v"), np.load(gw._c02_dir + "/v.npy"))[1], "volumes"),
+    "save_grid": (lambda gw: (gw.save_full_grid(gw._c02_dir + "/g"), np.load(gw._c02_dir + "/g.npy"))[1], "grid"),
+}
+HIST_CORE = ["adjacency", "borders", "distances", "volumes", "prefactors", "save_borders", "save_distances", "save_volumes"]
+
+
+# get_radii() and the direction grid's get_grid_as_array() return the stored arrays themselves.  They are inputs of the
+# grid, not observables of C02 (matrices and volumes), and the property says nothing about callers writing into them:
+# histories do not write into what these two return and the alias probe does not report them.
+OUTSIDE_PROPERTY_ALIASES = {"radii", "o_grid_array"}
+
+
+def _known_aliases():
+    return set(OUTSIDE_PROPERTY_ALIASES)
+
+
+def _snap(x):
+    """immutable copy of a returned object"""
+    if hasattr(x, "tocoo"):
+        c = x.tocoo()
+        return ("sparse", tuple(int(v) for v in x.shape), np.array(c.row, dtype=int).copy(), np.array(c.col, dtype=int).copy(),
+                np.array(c.data, dtype=float).copy())
+    return ("array", np.array(x, dtype=float).copy())
+
+
+def _same(a, b):
+    if a[0] != b[0]:
+        return False
+    if a[0] == "sparse":
+        return a[1] == b[1] and np.array_equal(a[2], b[2]) and np.array_equal(a[3], b[3]) and a[4].shape == b[4].shape and \
+            rel_close(a[4], b[4], 1e-12)
+    return a[1].shape == b[1].shape and rel_close(a[1], b[1], 1e-12)
+
+
+def _describe(a):
+    if a[0] == "sparse":
+        return {"shape": list(a[1]), "nnz": int(len(a[4])), "first_entries": [[int(r), int(c), float(v)] for r, c, v in zip(a[2][:4], a[3][:4], a[4][:4])]}
+    return {"shape": list(a[1].shape), "first_values": np.ravel(a[1])[:6].tolist()}
+
+
+def _scribble(x, how):
+    """write into a returned object in place"""
+    try:
+        if hasattr(x, "tocoo") and hasattr(x, "data"):
+            if how == "scale":
+                x.data *= 3.5
+            else:
+                x.data[...] = -5
+        elif isinstance(x, list):
+            for i in range(len(x)):
+                x[i] = x[i] * 3.5 if how == "scale" else -5.0
+        elif isinstance(x, np.ndarray):
+            if how == "scale" and x.dtype.kind == "f":
+                x *= 3.5
+            else:
+                x[...] = 0 if x.dtype.kind in "iub" else -5
+    except (ValueError, TypeError):
+        pass             # read-only buffers cannot be written to: nothing to do
+
+
+def _new_writer(case, tmp):
+    from molgri.io import GridWriter
+    gw = GridWriter(case["b"], case["o"], case["t"], factor=case["f"], position_grid_cartesian=case["cart"])
+    gw._c02_dir = tmp
+    return gw
+
+
+def _run_history(case, steps, tmp, noscribble):
+    """answers (snapshots taken before scribbling) of one object along a history"""
+    gw = _new_writer(case, tmp)
+    answers = []
+    for st in steps:
+        x = HIST_OPS[st["op"]][0](gw)
+        answers.append(_snap(x))
+        if st.get("scribble") and st["op"] not in noscribble:
+            _scribble(x, st["scribble"])
+    return answers
+
+
+def history_check(case):
+    """run the stored history on one object; every answer must equal the first answer of a fresh object"""
+    import shutil
+    import tempfile
+    steps = case["ops"]
+    noscribble = _known_aliases()
+    tmp = tempfile.mkdtemp(prefix="c02hist_")
+    res = {"steps": len(steps), "failures": [], "ops": sorted({st["op"] for st in steps})}
+    try:
+        with _fresh_factories():
+            ref = {}
+
+            def reference(op):
+                base = HIST_OPS[op][1] or op
+                if base not in ref:
+                    ref[base] = _snap(HIST_OPS[base][0](_new_writer(case, tmp)))
+                return ref[base]
+            answers = _run_history(case, steps, tmp, noscribble)
+            for k, (st, ans) in enumerate(zip(steps, answers)):
+                r = reference(st["op"])
+                if _same(ans, r):
+                    continue
+                # shrink: a two-step history (one earlier call, then this one) on a new object
+                minimal = steps[:k + 1]
+                for j in range(k):
+                    two = [steps[j], st]
+                    if not _same(_run_history(case, two, tmp, noscribble)[1], r):
+                        minimal = two
+                        break
+                res["failures"].append({"step": k, "op": st["op"], "minimal_history": minimal,
+                                        "fresh_object": _describe(r), "this_object": _describe(ans)})
+                break
+            # statement-level clauses on the references: prefactors = border / (distance * volume of the row cell)
+            if not res["failures"] and "prefactors" in ref:
+                B, Dm, V, Pf = reference("borders"), reference("distances"), reference("volumes"), ref["prefactors"]
+                ok = B[1] == Dm[1] == Pf[1] and np.array_equal(B[2], Pf[2]) and np.array_equal(B[3], Pf[3]) and \
+                    np.array_equal(B[2], Dm[2]) and np.array_equal(B[3], Dm[3])
+                if ok:
+                    with np.errstate(all="ignore"):
+                        exp = B[4] / Dm[4] / V[1][B[2]]
+                    good = np.isfinite(exp)
+                    ok = rel_close(Pf[4][good], exp[good], 1e-10)
+                if not ok:
+                    res["failures"].append({"step": -1, "op": "prefactors", "minimal_history": [{"op": "prefactors"}],
+                                            "fresh_object": _describe(Pf), "this_object": "not border/(distance*volume[row]) entry by entry"})
+            res["ref"] = {k: v for k, v in ref.items() if k in ("adjacency", "borders", "distances", "volumes")}
+    finally:
+        shutil.rmtree(tmp, ignore_errors=True)
+    return res
+
+
+def alias_probe(case):
+    """each getter on its own new object: call, overwrite what was returned, call again"""
+    import shutil
+    import tempfile
+    tmp = tempfile.mkdtemp(prefix="c02alias_")
+    found = []
+    try:
+        with _fresh_factories():
+            for op in HIST_OPS:
+                gw = _new_writer(case, tmp)
+                x = HIST_OPS[op][0](gw)
+                before = _snap(x)
+                _scribble(x, "overwrite")
+                after = _snap(HIST_OPS[op][0](gw))
+                if not _same(before, after):
+                    found.append({"op": op, "first_answer": _describe(before), "answer_after_overwriting_the_returned_object": _describe(after)})
+    finally:
+        shutil.rmtree(tmp, ignore_errors=True)
+    return {"probed": len(HIST_OPS), "aliases": found}
+
+
+def hist_cases(ctx, how_many):
+    rng = ctx.rng
+    o_names = [f"{a}_{n}" for a in O_ALGS for n in ((5, 6, 8) if ctx.quick else (5, 6, 7, 8, 10, 12))] + ["randomS_9", "ico_1", "cube3D_2"]
+    b_names = ["1", "cube4D_4", "randomQ_4", "cube4D_5", "randomQ_6"] + ([] if ctx.quick else ["cube4D_8", "randomQ_9", "cube4D_12"])
+    names = list(HIST_OPS)
+    for _ in range(how_many):
+        o, b = rng.choice(o_names), rng.choice(b_names)
+        cart = rng.random() < 0.4 and o_size(o) >= 5
+        t = rng.choice(T_FIXED[:3] + ["[0.15,0.3,0.35,0.6]"]) if rng.random() < 0.7 else rand_t(rng)
+        if cart and o_size(o) * n_radii(t) > 40:
+            cart = False
+        k = rng.randint(4, 8)
+        ops = [rng.choice(HIST_CORE) if rng.random() < 0.55 else rng.choice(names) for _ in range(k)]
+        ops.append(rng.choice(ops))                      # repetition
+        ops.append(rng.choice(HIST_CORE))
+        pure = rng.random() < 0.35             # a third of the histories only call (the code's own in-place arithmetic is then the only writer)
+        if pure and "prefactors" not in ops[:-2]:
+            ops[rng.randrange(len(ops) - 2)] = "prefactors"
+        steps = [{"op": op, "scribble": None if pure else rng.choice(["scale", "overwrite", "overwrite", None])} for op in ops]
+        yield {"kind": "hist", "b": b, "o": o, "t": t, "f": rng.choice([0.5, 2, 3, 1.7]), "cart": cart, "ops": steps}
 
 
 # ------------------------------------------------------------------------------------------------------------------
@@ -338,6 +576,8 @@ def impl(case):
         with core.quiet():
             if case["kind"] == "fold":
                 return impl_fold(case)
+            if case["kind"] == "alias":
+                return {"alias": alias_probe(case)}
             out = {}
             if case["kind"] == "syn":
                 fg = FullGrid(case["b"], case["o"], case["t"], factor=case["f"])
@@ -383,6 +623,8 @@ def impl(case):
                 else:
                     _pub_rot[case["b"]] = {s: np.zeros((1, 1)) for s in SELS}
             out["pubR"] = _pub_rot[case["b"]]
+            if case["kind"] == "hist":
+                out["hist"] = history_check(case)
             return out
     except Exception as e:
         return {"err": core.errname(e), "msg": str(e)[:200]}
@@ -419,7 +661,7 @@ def impl_fold(case):
 # model side
 # ------------------------------------------------------------------------------------------------------------------
 def model_ops(case, out):
-    if "err" in out:
+    if "err" in out or case["kind"] == "alias":
         return []
     if case["kind"] == "fold":
         if not all(finite(out["A"][s]) for s in SELS):
@@ -470,6 +712,16 @@ def compare(ctx, case, out, mouts):
     if "err" in out:
         ctx.branch(f"{kind}:error:{out['err']}")
         return
+    if kind == "alias":
+        ctx.branch("alias_probe:getters", out["alias"]["probed"])
+        ctx.nt(("alias", case["b"], case["o"], case["t"], case["cart"]))
+        return
+    if kind == "hist":
+        ctx.branch("history:objects")
+        ctx.branch("history:calls", out["hist"]["steps"])
+        for o in out["hist"]["ops"]:
+            ctx.branch(f"history:op={o}")
+        kind = "real"
     if kind == "fold":
         if len(mouts) < 3:
             ctx.branch("fold:non-finite-inputs")
@@ -566,6 +818,8 @@ def first_bad(A, B, rel):
 def keyer(case):
     if case["kind"] == "syn":
         return "C02:assembly:"
+    if case["kind"] == "alias":
+        return "C02:alias:"
     if case["kind"] == "fold":
         return f"C02:rotation:{case['b']}:"
     return f"C02:{'cartesian' if case['cart'] else 'shells'}:{case['o']}:"
@@ -582,6 +836,17 @@ def oracle(ctx, case, out):
         return
     if kind == "fold":
         return oracle_fold(ctx, case, out, K)
+    if kind == "alias":
+        for a in out["alias"]["aliases"]:
+            if a["op"] in OUTSIDE_PROPERTY_ALIASES:
+                ctx.branch("alias_outside_property:" + a["op"])
+                continue
+            ctx.fail(K + a["op"], f"the object returned by {a['op']} is internal state: after overwriting it in place the same getter "
+                     "answers differently on the same grid object", case, a["first_answer"], a["answer_after_overwriting_the_returned_object"])
+        return
+    if kind == "hist":
+        oracle_history(ctx, case, out)
+        kind = "real"
     nP, nB, f = out["n_P"], out["n_b"], float(case["f"])
     n = nP * nB
     full = out["full"]
@@ -660,6 +925,26 @@ def oracle(ctx, case, out):
             break
     if kind == "real" and not (np.all(np.isfinite(V)) and np.all(V > 0)):
         ctx.fail(K + "volume_positive", f"{int(np.sum(~(V > 0)))} of {len(V)} cell volumes are not finite and > 0", case)
+
+
+def oracle_history(ctx, case, out):
+    """every answer along the history must be the first answer of a fresh object (whose answers the clauses below check)"""
+    h = out["hist"]
+    for fl in h["failures"]:
+        hist = " -> ".join(st["op"] + ({"scale": "[returned object scaled in place]", "overwrite": "[returned object overwritten in place]"}.get(st.get("scribble"), "")) for st in fl["minimal_history"])
+        ctx.fail(f"C02:history:{fl['op']}", f"on one FullGrid object the history  {hist}  makes {fl['op']} answer differently from a "
+                 f"fresh object (state left by earlier calls / aliasing of a returned object)",
+                 dict(case, ops=fl["minimal_history"]), fl["fresh_object"], fl["this_object"])
+    # the references are the data the statement-level clauses are evaluated on
+    link = {"adjacency": "adjacency", "borders": "border_len", "distances": "center_distances"}
+    for op, snap in h.get("ref", {}).items():
+        if op in link:
+            c = out["full"][link[op]]
+            same = list(snap[1]) == c["shape"] and snap[2].tolist() == c["row"] and snap[3].tolist() == c["col"] and rel_close(snap[4], c["data"], 1e-12)
+        else:
+            same = snap[1].shape == np.shape(out["V"]) and rel_close(snap[1], out["V"], 1e-12)
+        if not same:
+            ctx.fail(f"C02:history:{op}", f"two fresh objects of the same grid give different {op}", case)
 
 
 def oracle_fold(ctx, case, out, K):
@@ -778,7 +1063,7 @@ def run(ctx):
     fixed = [c for f in ctx.fixed_findings for c in f.get("cases", [])]
     opened = [c for f in ctx.open_findings for c in f.get("cases", [])]
     gen = list(cases(ctx))
-    allc = fixed + gen[:60] + opened + gen[60:]
+    allc = fixed + gen[:90] + opened + gen[90:]
     if ctx.quick:
         for ch in _chunks(allc, CHUNK):
             _merge(ctx, _process_chunk(ch))
